@@ -140,6 +140,18 @@ CHECKS["C08"] = dict(
     design="5/C08",
 )
 
+CHECKS["C18"] = dict(
+    technique="generated package trees on disk x generated client modules; differential identity oracle: original and rewritten client are executed as modules in one process (shared sys.modules) and every imported object the client uses must be the identical object (id), per import rule and through format_code / format_file",
+    text="Temp trees with uniquely named packages (plain modules, __init__ re-exporting by name / star / __all__ / alias, sub-packages, re-export "
+         "chains, modules that import relatively, a second module binding the same names to other objects) and clients importing from them and "
+         "from the standard library in every statement form and position (dotted, aliased, starred, stacked, duplicated, unused, inside "
+         "functions, after definitions, under if / try, relative inside the package and its sub-package, after the client's own definition of "
+         "the name, the optional-import idiom, missing imports) go through each import rule and the whole pipeline; RESULT - the list of used "
+         "objects - must be identical object by object.",
+    note="Clients whose import ORDER decides what a name means are a known finding (sorting / hoisting reorders them; the project's own tests require it) and are excluded from the order-changing stages, counted; clients with a failing import are outside the domain.",
+    design="5/C18",
+)
+
 CHECKS["C19"] = dict(
     technique="generated programs with adversarial identifiers bound in every way; three oracles per (program, rule): differential execution, a reference binding graph (own scope analysis over the AST) whose partition of identifier occurrences into bindings must be invariant under a pure renaming, and validity of every new identifier",
     text="Programs assembled from binding-form blocks whose names are case/underscore variants of each other, builtin- and keyword-like, or "
